@@ -132,6 +132,8 @@ def run(ctx):
     for c, r_ in zip(glist, recs):
         g = c["g"]
         if r_["t"] == "E":
+            if r_.get("rot", 0) > 1e-12:
+                ctx.violation("rotation|e3", "R_3 at (B, L) = (%s, %s) deviates from the north-east-up frame by %r" % (g["lat"], g["lon"], r_["rot"]))
             tol = 1e-3 if g["h"] <= 100000 else 0.2
             tag = "%s|h%s" % ("pole" if abs(g["lat"]) == 90 else "gen", "far" if g["h"] > 100000 else "near")
             if any(isinstance(v, str) for v in r_["xyz"] + r_["xyz2"] + r_["blh"]):
